@@ -21,7 +21,8 @@ CONSTANTS
   MaxItems, MaxDepthFs,
   MaxEnv,       \* environment steps per history
   MaxOps,       \* library calls per history
-  EnvSuffixes   \* extra entries the environment may create beneath existing directories
+  EnvSuffixes,  \* extra entries the environment may create beneath existing directories
+  EnvFirst      \* TRUE: environment steps only before the first library call
 
 VARIABLES items, phase, fs, pre, hist, res
 fvars == <<items, phase, fs, pre, hist, res>>
@@ -58,7 +59,7 @@ EnvCandidates ==
 
 Env ==
   /\ phase = "ops" /\ "env" \in Ops /\ NCalls("env") < MaxEnv
-  /\ \A i \in 1..Len(hist) : hist[i].op = "env"          \* the environment acts before the library calls
+  /\ (EnvFirst => \A i \in 1..Len(hist) : hist[i].op = "env")   \* the environment acts before the library calls
   /\ \E p \in EnvCandidates, kind \in {"dir", "file"} :
        /\ ~Exists(fs, p) /\ IsDir(fs, ParentOf(p)) /\ ~HasLong(p)
        /\ fs' = IF kind = "dir" THEN [fs EXCEPT !.dirs = @ \cup {p}] ELSE [fs EXCEPT !.files = @ \cup {p}]
